@@ -199,8 +199,10 @@ def main():
     args = vlib.std_args()
     ck = Check("C16", args.tier, args.seed)
     ck.proofs("Props/C16.v", extra_trusted=[
-        "the %.7g rendering of the number and str(float) of numeric parameters are CPython's; the check compares the printed "
-        "number with the model's exact rational within half a unit of the 7th significant digit",
+        "the {:.7g} rendering is modelled (coq/Dec/Fmt7.v: correctly rounded 7 significant digits, ties to even, fixed / exponent notation, "
+        "trailing zeros removed) and compared as text with the printed number; the float arithmetic before it (float(literal), sum, division) "
+        "is CPython's: the model formats the exact rational and the rational moved by 2^-46 either way, the printed text must be one of them; "
+        "str(float) of numeric parameters is CPython's",
         "hand-written model coq/Dec/Print.v tied by correspondence; py/decgen.py renders the table to .dec text"])
     if args.replay:
         cases = json.loads(Path(args.replay).read_text())["cases"]
@@ -218,11 +220,15 @@ def main():
             return iv == mv
         if len(iv) != len(mv):
             return False
-        for ln, (qv, tail) in zip(iv, mv):
+        for ln, (qv, tail, g7) in zip(iv, mv):
             sp = split_line(ln)
             if sp is None:
                 return False
             if not num_ok(sp[0], Fraction(qv["q"][0], qv["q"][1])):
+                return False
+            # the printed token is exactly what the model of "{:.7g}" (coq/Dec/Fmt7.v) prints for the value (or for the value
+            # moved by 2^-46 relatively: the float the implementation formats is a few ulps from the exact rational)
+            if sp[0] not in g7:
                 return False
             if expected_line(sp[0], tail) != ln:
                 return False
